@@ -416,6 +416,63 @@ def _ulp_eq(a, b):
     return abs(a - b) <= 4e-16 * max(abs(a), abs(b))
 
 
+_MAUNA = {}
+
+
+def co2_conc_ref(spec, year, start_year):
+    """concentration the documentation promises for a season planted in `year`: the user's constant, else the record (the
+    user's table or the Mauna Loa file shipped with the package) interpolated linearly in time, held at its ends; a constant
+    requested without a value is the record's value of the first simulated year"""
+    c = spec.get("co2") or {}
+    if c.get("series") is not None:
+        ys = [float(y) for y, _ in c["series"]]
+        ps = [float(p) for _, p in c["series"]]
+    else:
+        if "t" not in _MAUNA:
+            import os
+            import aquacrop
+            rows = []
+            with open(os.path.join(os.path.dirname(aquacrop.__file__), "data", "MaunaLoaCO2.txt")) as f:
+                for line in f:
+                    parts = line.split()
+                    try:
+                        rows.append((float(parts[0]), float(parts[1])))
+                    except (ValueError, IndexError):
+                        continue
+            _MAUNA["t"] = rows
+        ys = [r[0] for r in _MAUNA["t"]]
+        ps = [r[1] for r in _MAUNA["t"]]
+    if c.get("constant_conc"):
+        if float(c.get("current_concentration", 0.0)) > 0:
+            return float(c["current_concentration"])
+        year = start_year
+    return float(np.interp(float(year), ys, ps))
+
+
+def fco2_ref(crop, conc, ref=369.41):
+    """CO2 adjustment of the water productivity (AquaCrop reference manual v7, section 3.11.2), written from the manual"""
+    bsted, bface, fsink, WP = float(crop.bsted), float(crop.bface), float(crop.fsink), float(crop.WP)
+    if conc <= ref:
+        fw = 0.0
+    elif conc >= 550:
+        fw = 1.0
+    else:
+        fw = 1 - (550 - conc) / (550 - ref)
+    f_old = (conc / ref) / (1 + (conc - ref) * ((1 - fw) * bsted + fw * (bsted * fsink + bface * (1 - fsink))))
+    if conc <= ref:
+        f = f_old
+    else:
+        if conc >= 2000:
+            f_new = 1.58
+        else:
+            shape = -4.61824 - 3.43831 * fsink - 5.32587 * fsink * fsink
+            rel = (conc - ref) / (2000 - ref)
+            f_new = 1 + 0.58 * ((math.exp(rel * shape) - 1) / (math.exp(shape) - 1))
+        f = f_old if (conc <= 550 and f_old < f_new) else f_new
+    ftype = 0.0 if WP >= 40 else (1.0 if WP <= 20 else (40 - WP) / 20.0)
+    return 1 + ftype * (f - 1)
+
+
 def mon_c06(ctx, rec):
     out = []
     st = ctx.state.setdefault("c06", {"season": None, "B": 0.0, "irr": {}, "harvest": {}, "last": {}, "started": set()})
@@ -428,6 +485,13 @@ def mon_c06(ctx, rec):
     st["started"].add(k)
     crop = ctx.crop(rec)
     WP, WPy, fCO2, YldWC = float(crop.WP), float(crop.WPy), float(crop.fCO2), float(crop.YldWC or 0)
+    if st["season"] != k:
+        # "the crop's CO2-adjusted water productivity": the adjustment belongs to the concentration of the season's planting year
+        year = ctx.planting[k].year
+        conc = co2_conc_ref(ctx.spec, year, pd.Timestamp(ctx.node.clock.simulation_start_date).year)
+        want = fco2_ref(crop, conc)
+        if not abs(fCO2 - want) <= 1e-12 * max(1.0, abs(want)):
+            out.append(("C06:co2-adjustment", f"day t={rec.t} season {k} planted {year}: the season crop's fCO2={fCO2!r}, the adjustment for {conc!r} ppm is {want!r}"))
     B, Bns = gr(rec, "biomass"), gr(rec, "biomass_ns")
     prevB = st["B"] if st["season"] == k else 0.0
     dB = B - prevB
@@ -510,7 +574,7 @@ def mon_c07(ctx, rec):
         "rows_t": (float(rec.flux[0]), float(rec.growth[0]), float(rec.storage[0])),
         "rows_dap": (float(rec.flux[FI["dap"]]), float(rec.storage[2])),
         "mature": bool(rec.flags1["crop_mature"]), "dead": bool(rec.flags1["crop_dead"]),
-        "tmin": rec.wx[0], "tmax": rec.wx[1],
+        "tmin": rec.wx[0], "tmax": rec.wx[1], "gdd_cum": gr(rec, "gdd_cum"),
         "cal": (int(crop.CalendarType), float(crop.Maturity), int(crop.GDDmethod), float(crop.Tupp), float(crop.Tbase)) if crop is not None else None,
     })
     return []
@@ -597,6 +661,10 @@ def final_c07(ctx, node, spec):
                 g = gsum.get(k, 0.0) + own_gdd(gm, tu, tb, d["tmax"], d["tmin"])
                 gsum[k] = g
                 mature_ref, undec = g >= mat, abs(g - mat) <= 1e-6
+                if undec and abs(d["gdd_cum"] - g) <= 1e-6:
+                    # the independent sum lands on the threshold within rounding: the sum the daily table reports for this
+                    # day (C05 ties it to the daily increments) decides whether maturity "is reached"
+                    mature_ref, undec = d["gdd_cum"] >= mat, False
             latest = date + _dt.timedelta(days=1) == pd.Timestamp(ctx.harvest[k]).date()
             if h:
                 harvested[k] = i
